@@ -276,14 +276,24 @@ Qed.
 Lemma finish_link p f j : finish p f = RLink j -> f = Found j.
 Proof.
   destruct f as [i| | |]; simpl; try discriminate.
-  destruct (get_ent p i) as [e|]; [|discriminate]. destruct (e_has_url e); [|discriminate].
+  destruct (get_ent p i) as [e|]; [|discriminate].
+  destruct (negb (displayed p i)); [discriminate|]. destruct (e_has_url e); [|discriminate].
+  now intros [= <-].
+Qed.
+
+Lemma finish_displayed p f j : finish p f = RLink j -> displayed p j = true.
+Proof.
+  destruct f as [i| | |]; simpl; try discriminate.
+  destruct (get_ent p i) as [e|]; [|discriminate].
+  destruct (displayed p i) eqn:D; [|discriminate]. simpl. destruct (e_has_url e); [|discriminate].
   now intros [= <-].
 Qed.
 
 Lemma finish_valid p f j : finish p f = RLink j -> get_ent p j <> None.
 Proof.
   destruct f as [i| | |]; simpl; try discriminate.
-  destruct (get_ent p i) as [e|] eqn:G; [|discriminate]. destruct (e_has_url e); [|discriminate].
+  destruct (get_ent p i) as [e|] eqn:G; [|discriminate].
+  destruct (negb (displayed p i)); [discriminate|]. destruct (e_has_url e); [|discriminate].
   intros [= <-]. congruence.
 Qed.
 
@@ -564,7 +574,8 @@ Qed.
 Lemma finish_no_err p f : f <> ErrT -> finish p f <> RErr.
 Proof.
   destruct f as [i| | |]; simpl; try discriminate; [|congruence].
-  destruct (get_ent p i) as [e|]; [|discriminate]. destruct (e_has_url e); discriminate.
+  destruct (get_ent p i) as [e|]; [|discriminate].
+  destruct (negb (displayed p i)); [discriminate|]. destruct (e_has_url e); discriminate.
 Qed.
 
 Theorem no_abort p ctx r :
@@ -939,9 +950,43 @@ Proof.
       apply in_flat_map. exists c. split; auto. now apply in_all_doc_collections.
 Qed.
 
-Lemma finish_cand p i : has_url p i = true -> finish p (Found i) = RLink i.
+(* the code's test for "is displayed" is the Spec's "is documented" *)
+Lemma page_written_shown p : forall f i e,
+  get_ent p i = Some e -> e_owns_page e = false ->
+  page_is_written f p i = forallb (vis p) (shown_on f p i).
 Proof.
-  unfold has_url, finish. destruct (get_ent p i) as [e|]; [|discriminate]. now intros ->.
+  induction f as [|f IH]; intros i e G O; simpl; rewrite G, O.
+  - destruct (e_parent e); [|reflexivity]. destruct (up_parent p e) as [par|]; [|reflexivity].
+    simpl. destruct (vis p par); simpl; [|reflexivity].
+    destruct (get_ent p par); reflexivity.
+  - destruct (e_parent e); [|reflexivity]. destruct (up_parent p e) as [par|]; [|reflexivity].
+    simpl. destruct (vis p par); simpl; [|reflexivity].
+    destruct (get_ent p par) as [pe|] eqn:Gp.
+    + destruct (e_owns_page pe) eqn:Op.
+      * destruct f; simpl; now rewrite Gp, Op.
+      * now apply IH with (e := pe).
+    + destruct f; simpl; now rewrite Gp.
+Qed.
+
+Lemma page_written_owner p f i e :
+  get_ent p i = Some e -> e_owns_page e = true -> page_is_written f p i = true.
+Proof. intros G O. destruct f; simpl; now rewrite G, O. Qed.
+
+Lemma displayed_documented p i : displayed p i = documented p i.
+Proof.
+  unfold displayed, documented. destruct (get_ent p i) as [e|] eqn:G; [|reflexivity].
+  destruct (e_owns_page e) eqn:O.
+  - rewrite (page_written_owner p _ i e G O).
+    destruct (e_iface_proc e); [destruct (e_parent e) as [par|]; [destruct (vis p par)|]|destruct (e_visible e)];
+      reflexivity.
+  - simpl. now apply page_written_shown with (e := e).
+Qed.
+
+Lemma finish_cand p i :
+  has_url p i = true -> finish p (Found i) = if documented p i then RLink i else RPlain.
+Proof.
+  unfold has_url, finish. rewrite <- displayed_documented.
+  destruct (get_ent p i) as [e|]; [|discriminate]. intros ->. now destruct (displayed p i).
 Qed.
 
 Lemma nat_in_In i l : In i l -> nat_in i l = true.
@@ -961,22 +1006,30 @@ Definition ctx_ok (p : proj) (ctx : option nat) : Prop :=
   end.
 
 (* the shape of an accepted answer for a reference without item part *)
-Definition accepted_simple (cs : list nat) (res : result) : bool :=
+Definition accepted_simple (p : proj) (cs : list nat) (res : result) : bool :=
   match cs, res with
   | [], RPlain => true
-  | _ :: _, RLink i => nat_in i cs
+  | _ :: _, RLink i => link_ok p i cs
+  | _ :: _, RPlain => plain_ok p cs
   | _, _ => false
   end.
 
 Lemma spec_accepts_simple p ctx r res :
   r_child r = None -> r_ckind r = None -> kind_documented (r_kind r) = true ->
-  spec_accepts p ctx r res = accepted_simple (comp_cands p ctx r) res.
+  spec_accepts p ctx r res = accepted_simple p (comp_cands p ctx r) res.
 Proof.
   intros Hc Hck K. unfold spec_accepts. rewrite K, Hck, Hc. reflexivity.
 Qed.
 
-Lemma cands_link l i : In i l -> accepted_simple l (RLink i) = true.
-Proof. intros H. destruct l; [destruct H|]. unfold accepted_simple. now apply nat_in_In. Qed.
+(* the candidate that the code picked: a link if it is documented, plain text if not *)
+Lemma cands_pick p l i :
+  In i l -> accepted_simple p l (settle (if documented p i then RLink i else RPlain)) = true.
+Proof.
+  intros H. destruct l as [|x l']; [destruct H|]. unfold accepted_simple.
+  destruct (documented p i) eqn:D; cbn [settle].
+  - unfold link_ok. now rewrite (nat_in_In _ _ H), D.
+  - unfold plain_ok. apply existsb_exists. exists i. split; auto. now rewrite D.
+Qed.
 
 Lemma scope_cands_url p c n k i : In i (scope_cands p c n k) -> has_url p i = true.
 Proof.
@@ -1004,7 +1057,7 @@ Proof.
   unfold comp_cands, render, convert_link, ctx_step, project_step. rewrite Hc.
   pose proof (project_level p (r_name r) (r_kind r) U I K) as PL.
   assert (Proj : forall pre, (forall l, In l pre -> l = []) ->
-            accepted_simple (first_nonempty (pre ++ [project_cands p (r_name r) (r_kind r)]))
+            accepted_simple p (first_nonempty (pre ++ [project_cands p (r_name r) (r_kind r)]))
               (settle match project_find p (r_name r) (r_kind r) None None with
                       | NotFound => RPlain
                       | f => finish p f
@@ -1017,7 +1070,7 @@ Proof.
       - rewrite (Hpre l (or_introl eq_refl)). apply IH. intros; apply Hpre; now right. }
     rewrite E.
     destruct (project_find p (r_name r) (r_kind r) None None) as [i| | |]; try contradiction.
-    - rewrite (finish_cand p i (project_cands_url _ _ _ _ PL)). now apply cands_link.
+    - rewrite (finish_cand p i (project_cands_url _ _ _ _ PL)). now apply cands_pick.
     - now rewrite PL. }
   destruct ctx as [c|].
   - destruct Hctx as (e & G & Hok & Hpar).
@@ -1025,17 +1078,17 @@ Proof.
     pose proof (scope_level p c e (r_name r) (r_kind r) G Hok U I K) as L1.
     destruct (find_child_quiet p c (r_name r) (r_kind r)) as [i| | |]; try contradiction.
     + rewrite (finish_cand p i (scope_cands_url _ _ _ _ _ L1)).
-      cbn [first_nonempty app settle].
+      cbn [first_nonempty app].
       destruct (scope_cands p c (r_name r) (r_kind r)) eqn:S; [destruct L1|].
-      unfold accepted_simple. now apply nat_in_In.
+      now apply cands_pick.
     + destruct (e_parent e) as [par|].
       * destruct Hpar as (e' & G' & Hok').
         pose proof (scope_level p par e' (r_name r) (r_kind r) G' Hok' U I K) as L2.
         destruct (find_child_quiet p par (r_name r) (r_kind r)) as [i| | |]; try contradiction.
         -- rewrite (finish_cand p i (scope_cands_url _ _ _ _ _ L2)).
-           cbn [first_nonempty app settle]. rewrite L1.
+           cbn [first_nonempty app]. rewrite L1.
            destruct (scope_cands p par (r_name r) (r_kind r)) eqn:S; [destruct L2|].
-           unfold accepted_simple. now apply nat_in_In.
+           now apply cands_pick.
         -- apply (Proj [scope_cands p c (r_name r) (r_kind r); scope_cands p par (r_name r) (r_kind r)]).
            intros l [<-|[<-|[]]]; auto.
       * apply (Proj [scope_cands p c (r_name r) (r_kind r)]). intros l [<-|[]]; auto.
@@ -1105,17 +1158,17 @@ Proof.
     pose proof (scope_level_item p c e (r_name r) k a G U I CK IK) as L1.
     destruct (find_child_quiet p c (r_name r) (Some k)) as [i| | |]; try contradiction.
     + rewrite (finish_cand p i (scope_cands_url _ _ _ _ _ L1)).
-      cbn [first_nonempty app settle].
+      cbn [first_nonempty app].
       destruct (scope_cands p c (r_name r) (Some k)) eqn:S; [destruct L1|].
-      now apply nat_in_In.
+      exact (cands_pick p _ i L1).
     + rewrite L1. destruct (e_parent e) as [par|].
       * destruct Hpar as (e' & G').
         pose proof (scope_level_item p par e' (r_name r) k a G' U I CK IK) as L2.
         destruct (find_child_quiet p par (r_name r) (Some k)) as [i| | |]; try contradiction.
         -- rewrite (finish_cand p i (scope_cands_url _ _ _ _ _ L2)).
-           cbn [first_nonempty app settle].
+           cbn [first_nonempty app].
            destruct (scope_cands p par (r_name r) (Some k)) eqn:S; [destruct L2|].
-           now apply nat_in_In.
+           exact (cands_pick p _ i L2).
         -- rewrite L2, PF. reflexivity.
       * rewrite PF. reflexivity.
   - unfold levels. rewrite Hk, PC, PF. reflexivity.
@@ -1125,11 +1178,11 @@ Qed.
 Definition w_proj : proj :=
   {| p_ents :=
        [ {| e_name := s "m"; e_attrs := [(s "subroutines", AList [1]); (s "functions", AList [])];
-            e_parent := None; e_has_url := true |};
+            e_parent := None; e_has_url := true; e_owns_page := true; e_visible := true; e_iface_proc := false |};
          {| e_name := s "reset"; e_attrs := [(s "args", AList [])]; e_parent := Some 0;
-            e_has_url := true |};
+            e_has_url := true; e_owns_page := true; e_visible := true; e_iface_proc := false |};
          {| e_name := s "reset"; e_attrs := [(s "args", AList [])]; e_parent := None;
-            e_has_url := true |} ];
+            e_has_url := true; e_owns_page := true; e_visible := true; e_iface_proc := false |} ];
      p_cols := [(s "modules", [0]); (s "procedures", [2; 1])] |}.
 Definition w_ref : ref :=
   {| r_name := s "reset"; r_kind := Some (s "proc"); r_child := None; r_ckind := None |}.
@@ -1179,10 +1232,10 @@ Qed.
 Definition w_proj2 : proj :=
   {| p_ents :=
        [ {| e_name := s "shape"; e_attrs := [(s "variables", AList [1]); (s "boundprocs", AList [2])];
-            e_parent := None; e_has_url := true |};
-         {| e_name := s "n_sides"; e_attrs := []; e_parent := Some 0; e_has_url := true |};
+            e_parent := None; e_has_url := true; e_owns_page := true; e_visible := true; e_iface_proc := false |};
+         {| e_name := s "n_sides"; e_attrs := []; e_parent := Some 0; e_has_url := true; e_owns_page := true; e_visible := true; e_iface_proc := false |};
          {| e_name := s "area"; e_attrs := [(s "bindings", AList [])]; e_parent := Some 0;
-            e_has_url := true |} ];
+            e_has_url := true; e_owns_page := true; e_visible := true; e_iface_proc := false |} ];
      p_cols := [(s "types", [0])] |}.
 Definition w_ref3 : ref :=
   {| r_name := s "area"; r_kind := Some (s "bound"); r_child := None; r_ckind := None |}.
@@ -1193,4 +1246,46 @@ Example ex_item_kind_word :
   render w_proj2 (Some 1) w_ref3 = RLink 2 /\ comp_cands w_proj2 (Some 1) w_ref3 = [2] /\
   spec_accepts w_proj2 (Some 1) w_ref3 RPlain = false /\
   render w_proj2 None w_ref3 = RPlain /\ spec_accepts w_proj2 None w_ref3 RPlain = true.
+Proof. repeat split; reflexivity. Qed.
+
+(* the C09 guarantee at the level of references: a link is only ever emitted to an entity whose
+   page is written (the entities that show it are displayed) *)
+Theorem link_only_documented p ctx r j : render p ctx r = RLink j -> documented p j = true.
+Proof.
+  intros H. apply settle_link in H. rewrite <- displayed_documented.
+  revert H. unfold convert_link, project_step.
+  destruct (ctx_step p ctx r); try apply finish_displayed.
+  destruct (project_find p (r_name r) (r_kind r) (r_child r) (r_ckind r)); try apply finish_displayed.
+  destruct (r_child r); [apply finish_displayed|discriminate].
+Qed.
+
+(* a private function [helper] of a module that is displayed: its page is not written, so its
+   local variable [init] is not documented and a reference that selects it is plain text, while
+   the argument [x] of the procedure in an interface block is shown on the interface's page *)
+Definition w_proj3 : proj :=
+  {| p_ents :=
+       [ {| e_name := s "m"; e_attrs := [(s "functions", AList [1]); (s "interfaces", AList [4])];
+            e_parent := None; e_has_url := true; e_owns_page := true; e_visible := true; e_iface_proc := false |};
+         {| e_name := s "helper"; e_attrs := [(s "variables", AList [2]); (s "retvar", ASingle 3)];
+            e_parent := Some 0; e_has_url := true; e_owns_page := true; e_visible := false; e_iface_proc := false |};
+         {| e_name := s "init"; e_attrs := []; e_parent := Some 1; e_has_url := true;
+            e_owns_page := false; e_visible := true; e_iface_proc := false |};
+         {| e_name := s "res_helper"; e_attrs := []; e_parent := Some 1; e_has_url := true;
+            e_owns_page := false; e_visible := true; e_iface_proc := false |};
+         {| e_name := s "cb"; e_attrs := [(s "procedure", ASingle 5)]; e_parent := Some 0; e_has_url := true;
+            e_owns_page := true; e_visible := true; e_iface_proc := false |};
+         {| e_name := s "cb"; e_attrs := [(s "args", AList [6])]; e_parent := Some 4; e_has_url := true;
+            e_owns_page := true; e_visible := false; e_iface_proc := true |};
+         {| e_name := s "x"; e_attrs := []; e_parent := Some 5; e_has_url := true;
+            e_owns_page := false; e_visible := true; e_iface_proc := false |} ];
+     p_cols := [(s "modules", [0]); (s "procedures", [1]); (s "absinterfaces", [4])] |}.
+Definition ref_of (n : string) : ref := {| r_name := s n; r_kind := None; r_child := None; r_ckind := None |}.
+Example ex_documented :
+  documented w_proj3 2 = false /\ render w_proj3 (Some 3) (ref_of "init") = RPlain /\
+  spec_accepts w_proj3 (Some 3) (ref_of "init") RPlain = true /\
+  spec_accepts w_proj3 (Some 3) (ref_of "init") (RLink 2) = false /\
+  render w_proj3 None (ref_of "helper") = RPlain /\
+  documented w_proj3 6 = true /\ render w_proj3 (Some 5) (ref_of "x") = RLink 6 /\
+  spec_accepts w_proj3 (Some 5) (ref_of "x") RPlain = false /\
+  render w_proj3 (Some 6) (ref_of "cb") = RLink 4.
 Proof. repeat split; reflexivity. Qed.
